@@ -216,7 +216,33 @@ def main(args):
                  "each member is bound in the type of the field designated so far (for an alias: of the LAST element of its path), missing member / scalar / array heads give exactly one error of the right kind")
     run.function("compiler.front_end.symbol_resolver._find_target_of_reference",
                  "pyvc: body executed symbolically over ghost scope tables: unique candidate returned, none -> missing-name error, several -> ambiguous-name error (never precedence), is_local_name -> innermost")
+    # E1, second batch: how the scope tables are built and which scopes are visible from a place (contracts/resolver2.py)
+    from contracts import resolver2
+    pool.run_targets(run, "contracts.resolver2", sorted(resolver2.TARGETS))
+    for fn, how in [
+            ("_nested_name", "canonical name of a nested definition = parent path + [name], same module, parent not modified"),
+            ("_add_struct_field_to_scope", "field name LOCAL with the nested canonical name; abbreviation PRIVATE and bound to the FIELD's canonical name; `this` PRIVATE inside the field's own scope and bound to the field; "
+                                           "one duplicate error per name already present (first definition stays); no other name written"),
+            ("_add_name_to_scope_and_normalize", "executed as callee of the three functions below and of _add_struct_field_to_scope (canonical name written into the IR node)"),
+            ("_add_type_name_to_scope", "SEARCHABLE, nested canonical name, returns the new scope as the scope of the nested definitions; duplicates: one error, first stays"),
+            ("_add_enum_value_to_scope", "LOCAL, nested canonical name; duplicates: one error, first stays"),
+            ("_add_parameter_name_to_scope", "LOCAL, nested canonical name; duplicates: one error, first stays"),
+            ("_add_alias_to_scope", "alias stored in exactly the scope the canonical name designates (depth 0-2), with the given visibility and alias target; duplicate -> one error, first definition stays; frame"),
+            ("_add_import_to_scope", "anonymous (prelude) import adds no name; a named import becomes a SEARCHABLE alias of the imported file in the importing module"),
+            ("_set_visible_scopes_for_type_definition", "current scope = the type; visible scopes = (type,) + enclosing scopes in their order (innermost first), for 1-3 enclosing scopes"),
+            ("_set_visible_scopes_for_module", "current scope = module; visible scopes = module, then only the ANONYMOUS imports in source order (every pattern of <= 3 imports)"),
+            ("_set_visible_scopes_for_attribute", "attribute on a field: field scope first, then the enclosing scopes; any other attribute leaves the scopes alone"),
+            ("_resolve_reference", "an already-resolved reference is never searched or rebound; otherwise searched once from the given place and bound to a COPY of exactly the found definition's canonical name; nothing found -> unbound, only the search's error"),
+            ("_resolve_head_of_field_reference", "only path[0] is searched lexically, with the arguments passed through"),
+            ("_set_scope_for_type_definition", "table plumbing of the traversals: the entry of that name"),
+            ("_set_scope_for_module", "table plumbing: the entry of that module"),
+            ("_add_module_to_scope", "module scope created SEARCHABLE with an empty object path; other modules untouched"),
+            ("_module_source_from_table_action", "table plumbing: the entry of that module")]:
+        run.function("compiler.front_end.symbol_resolver." + fn, "pyvc: " + how)
     run.assume(*core.STANDING_ASSUMPTIONS["E1"])
+    run.assume("symbol_resolver scope construction (contracts/resolver2.py): `_Scope(...)`, `ir_data.CanonicalName(...)`, `ir_data.Word(...)` and `parser_types.SourceLocation(...)` constructors are records of their arguments, "
+               "error constructors tagged tuples of their arguments, `ir_data_utils.builder` transparent; which IR nodes each function is applied to (the five traversals of _construct_symbol_tables / "
+               "_resolve_symbols_from_table, and traverse_ir's parameter threading) is covered by the bounded scenarios only")
     run.assume("_find_target_of_reference: scope tables are ghost dicts (presence of the name symbolic, a definition's own table empty or not); single-component names; "
                "import aliases and multi-component TYPE paths are covered by the bounded scenarios only",
                "_resolve_field_reference: ir_util.find_object(_or_none) is a lookup in a ghost object table; the recursive call on an alias's own definition is the induction hypothesis (it binds the alias's path or reports into a separate error list)")
